@@ -154,6 +154,7 @@ def regen_consts(mod, binary):
             lines.append("def %s : String := %s" % (lean_ident(k), v))
     lines.append("end Hy.Gen")
     text = "\n".join(lines) + "\n"
+    os.makedirs(os.path.join(LEAN, "Hy", "Gen"), exist_ok=True)
     path = os.path.join(LEAN, "Hy", "Gen", mod.capitalize() + ".lean")
     os.makedirs(os.path.dirname(path), exist_ok=True)
     old = open(path).read() if os.path.exists(path) else None
@@ -164,6 +165,7 @@ def regen_consts(mod, binary):
 
 
 def write_gen_file(name, text):
+    os.makedirs(os.path.join(LEAN, "Hy", "Gen"), exist_ok=True)
     path = os.path.join(LEAN, "Hy", "Gen", name + ".lean")
     os.makedirs(os.path.dirname(path), exist_ok=True)
     old = open(path).read() if os.path.exists(path) else None
